@@ -376,7 +376,10 @@ class ProcessRunner(Runner, ABC):
         # tasks that are now done (possibly the last ones) are waiting.
         self._consume_log_queue()
         for future in done:
-            task = self.future_to_task[future]
+            # Stop tracking the future before it is yielded, so that it
+            # cannot be returned again by a later call to wait() if the
+            # caller is interrupted while handling it.
+            task = self.future_to_task.pop(future)
             if future.cancelled:
                 continue
             try:
@@ -386,11 +389,6 @@ class ProcessRunner(Runner, ABC):
             else:
                 self.results_map[task] = task_result
                 yield (task, task_result.meta)
-        self.future_to_task = {
-            future: self.future_to_task[future]
-            for future in self.future_to_task
-            if future not in done
-        }
 
     def cancel(self) -> None:
         self.executor.cancel()
